@@ -72,6 +72,22 @@ def PipeKind.errVariant : PipeKind → String
   | .stepByStepSimplex => "StepByStepSimplexError" | .dual => "Other" | .milpSolver => "SolverError"
   | .autoSolver => "SolverError"
 
+def PipeKind.structName : PipeKind → String
+  | .compiler => "CompilerPipe" | .preModel => "PreModelPipe" | .model => "ModelPipe"
+  | .linearModel => "LinearModelPipe" | .standardLinearModel => "StandardLinearModelPipe" | .tableau => "TableauPipe"
+  | .realSolver => "RealSolver" | .stepByStepSimplex => "StepByStepSimplexPipe" | .dual => "DualPipe"
+  | .milpSolver => "MILPSolverPipe" | .autoSolver => "AutoSolverPipe"
+
+/-- in the order of `pipe_executors.rs`. -/
+def PipeKind.all : List PipeKind :=
+  [.compiler, .preModel, .model, .linearModel, .standardLinearModel, .tableau, .realSolver, .stepByStepSimplex, .dual,
+   .milpSolver, .autoSolver]
+
+/-- the model's typing table in the shape `tools/extract.py` re-reads from the Rust source (`Rooc/Gen/PipeTable.lean`);
+`Rooc.Props.C16.pipe_table_agrees` is the proof obligation that the two coincide. -/
+def modelTable : List (String × String × String × String) :=
+  PipeKind.all.map fun k => (k.structName, k.input.name, (k.output.map DataTy.name).getD "", k.errVariant)
+
 inductive PipeErr
   | invalidData (expected got : DataTy)
   | stage (variant : String)
